@@ -70,6 +70,18 @@ def ref_op(op, game, P, Q):
     raise ValueError(op)
 
 
+def _reown(aut, op):
+    """History for the `@reowned` variants: run the operator once, re-assign every variable to the component in place,
+    refresh the primed lists the documented way, and only then run the operator that is checked."""
+    base, _, tag = op.partition('@')
+    if tag:
+        real_op(base, aut, aut.win['[]<>'][0], aut.win['<>[]'][0])
+        aut.varlist['sys'] = list(aut.varlist['env']) + list(aut.varlist['sys'])
+        aut.varlist['env'] = []
+        aut.prime_varlists()
+    return base
+
+
 def replay_member(shape, moore, plus_one, op, values):
     """Real operator on one member vs explicit game solving / graph search. No z3."""
     from vlib import bdd2smt, family, xplay
@@ -77,10 +89,13 @@ def replay_member(shape, moore, plus_one, op, values):
     # the real operator runs on the family itself (rigid constants stay in the support, as in the failing run);
     # its result is then read at the member's constant values
     afam, _ = family.build(shape, moore, plus_one)
+    full_op = op
+    op = _reown(afam, full_op)
     rfam = real_op(op, afam, afam.win['[]<>'][0], afam.win['<>[]'][0])
     rfam = afam.let({p: values[p] for p in params if p in afam.support(rfam)}, rfam) if \
         set(params) & afam.support(rfam) else rfam
     c01.concrete_member(aut, {p: values[p] for p in params})
+    _reown(aut, full_op)
     ex = family.Explicit(aut, bdd2smt.Exporter(aut.bdd))
     E, S, goals, holds, truth = c01.concrete_tables(aut, ex)
     P, Q = goals[0], holds[0]
@@ -160,6 +175,8 @@ def family_op(shape, moore, plus_one, ops):
         aut, params = family.build(shape, moore, plus_one)
         P = aut.win['[]<>'][0]
         Q = aut.win['<>[]'][0]
+        full_op = op
+        op = _reown(aut, full_op)
         r = real_op(op, aut, P, Q)
         t_real = time.time() - t0
         exp = bdd2smt.Exporter(aut.bdd)
@@ -171,7 +188,7 @@ def family_op(shape, moore, plus_one, ops):
                          lambda s, a, b: S[s, a, b], moore, plus_one)
         ref = ref_op(op, game, Pt, Qt)
         rt = ex.pred_table(r)
-        sample = dict(shape=shape, op=op, moore=moore, plus_one=plus_one, constants=len(params),
+        sample = dict(shape=shape, op=full_op, moore=moore, plus_one=plus_one, constants=len(params),
                       result_bdd_nodes=len(r), real_s=round(t_real, 2))
         sol = z3.Solver()
         sol.add(z3.Or([rt[s] for s in ex.S]), z3.Or([z3.Not(rt[s]) for s in ex.S]))
@@ -193,13 +210,13 @@ def family_op(shape, moore, plus_one, ops):
             t1 = time.time()
             res_ = str(sol.check())
             dt = time.time() - t1
-            name = f'{op} {shape} moore={moore} plus_one={plus_one} {label}'
+            name = f'{full_op} {shape} moore={moore} plus_one={plus_one} {label}'
             if res_ == 'unsat':
                 out.append(core.res(name, 'holds', queries={res_: 1}, solver_s=dt, sample=sample,
                                     nontrivial=nontrivial, functions=FUNCS))
             elif res_ == 'sat':
                 vals = family.model_params(sol.model(), params, exp.bits, aut.vars)
-                diffs = replay_member(shape, moore, plus_one, op, vals)
+                diffs = replay_member(shape, moore, plus_one, full_op, vals)
                 if diffs:
                     out.append(core.res(
                         name, 'violation', queries={res_: 1}, solver_s=dt, sample=sample, nontrivial=True,
@@ -207,7 +224,7 @@ def family_op(shape, moore, plus_one, ops):
                         f'{"plus_one" if plus_one else "stepwise"}',
                         detail=f'member {c01._describe(vals, params)} of {shape}: {op} at {diffs[0][0]} '
                                f'returns {diffs[0][1]}, explicit computation gives {diffs[0][2]}',
-                        cex=dict(shape=shape, moore=moore, plus_one=plus_one, op=op, values=vals)))
+                        cex=dict(shape=shape, moore=moore, plus_one=plus_one, op=full_op, values=vals)))
                 else:
                     out.append(core.res(name, 'inconclusive', queries={res_: 1}, solver_s=dt, sample=sample,
                                         detail='counterexample did not reproduce on the member'))
@@ -265,6 +282,14 @@ def run(tier, seed, t0, only=None):
             for op in ops:
                 if op in ('ee_image', 'descendants_future', 'descendants_now') and (moore, plus_one) != (True, True):
                     continue   # independent of the mode
+                tasks.append(dict(mod='vlib.props.c11', fn='family_op',
+                                  kw=dict(shape=shape, moore=moore, plus_one=plus_one, ops=[op]),
+                                  backend=be, timeout=300 if tier == 'quick' else 3000,
+                                  name=f'{be}:{op}:{shape}:moore={moore}:plus_one={plus_one}'))
+    # history: the same Automaton after every variable was re-assigned to the component in place
+    for shape, be in (('S11', 'cudd'), ('B11b', 'cudd')):
+        for moore, plus_one in MODES:
+            for op in ('step@reowned', 'attractor@reowned', 'trap@reowned'):
                 tasks.append(dict(mod='vlib.props.c11', fn='family_op',
                                   kw=dict(shape=shape, moore=moore, plus_one=plus_one, ops=[op]),
                                   backend=be, timeout=300 if tier == 'quick' else 3000,
